@@ -297,11 +297,13 @@ func (w *scWorld) monOp(c *scConn, op string, ok bool) {
 func (w *scWorld) monUse(c *scConn, op string) {
 	sl := c.pool.sl
 	if c.st != "held" {
+		// running a statement = selecting the database on the connection (init) + sending it (exec)
 		prop := "C19"
-		if op == "exec" && w.ks {
-			prop = "C23"
-		} else if op == "exec" && w.inTx() {
-			prop = "C18"
+		stmt := op == "exec" || op == "init"
+		if stmt && w.ks {
+			prop = "C23" // the statement does not run on a connection pinned to (held by) the client
+		} else if stmt && w.inTx() {
+			prop = "C18" // ... on a connection somebody else may be using
 		}
 		w.dev(prop, "use-of-returned-connection", "%s on connection %d which the session has already returned (state %s)", op, c.id, c.st)
 		return
